@@ -40,6 +40,8 @@ def finding_key(fname, cfg):
         cls = "arithmetic-operands"
     elif lab.startswith("bool"):
         cls = "boolop"
+    elif lab.startswith("callarg_"):
+        cls = "callarg-literal-or-nested-calls"
     elif lab.startswith("rve_"):
         # left operand reads mutable state (storage / transient / len / map / array / struct field / self.balance), the right
         # operand is a call changing it: one key per kind of compound form
